@@ -149,6 +149,8 @@ def gen_class(rng, name, refs, feats, leaf=False, root=False):
             kinds += ["compound"]
         if "union" in feats and refs:
             kinds += ["union"] * 3
+        if "punion" in feats:
+            kinds += ["punion"]
         k = rng.choice(kinds)
         n = fname()
         md = {}
@@ -177,6 +179,14 @@ def gen_class(rng, name, refs, feats, leaf=False, root=False):
             else:
                 md["required"] = True
                 flds.append({"name": n, "type": pt, "metadata": md})
+        elif k == "punion":
+            # an element whose type is a union of primitives (one PrimitiveNode, the converter tries the types in turn)
+            md["type"] = "Element"
+            ut = {"union": rng.choice([["int", "str"], ["bool", "str"], ["int", "bool"], ["int", "bool", "str"]])}
+            if "list" in feats and rng.random() < 0.5:
+                flds.append({"name": n, "type": {"list": ut}, "metadata": md, "default": {"factory": "list"}})
+            else:
+                flds.append({"name": n, "type": {"opt": ut}, "metadata": md, "default": {"value": None}})
         elif k == "elem":
             md["type"] = "Element"
             r = rng.random()
@@ -453,6 +463,8 @@ def gen_field_value(rng, uni, f, depth):
             m = rng.choice(bt["union"])
             if isinstance(m, dict) and "cls" in m:
                 return gen_instance(rng, uni, m["cls"], depth + 1)
+            if m == "str" and all(isinstance(x, str) for x in bt["union"]) and rng.random() < 0.25:
+                return rng.choice(["5", "true", " 1", "0", "-7", "False", ""])  # texts another member may accept
             return rprim(rng, m)
         if bt == "object":
             r = rng.random()
